@@ -83,6 +83,25 @@ func vexpand(g *vpool, p *EdwardsPoint) *ExpandedEdwardsPoint {
 	return NewExpandedEdwardsPoint(p)
 }
 
+// vsame reports whether the caller's argument slices still hold exactly the objects they held before a call (a callee
+// must not reorder, compact or overwrite the slices it is given)
+func vsame(ss, ss0 []*scalar.Scalar, ps, ps0 []*EdwardsPoint) bool {
+	if len(ss) != len(ss0) || len(ps) != len(ps0) {
+		return false
+	}
+	for i := range ss {
+		if ss[i] != ss0[i] {
+			return false
+		}
+	}
+	for i := range ps {
+		if ps[i] != ps0[i] {
+			return false
+		}
+	}
+	return true
+}
+
 type vmul struct {
 	g   *vpool
 	bd  [][]byte
@@ -400,12 +419,32 @@ func TestVerifRecC03(t *testing.T) {
 		case "msm", "msmvt":
 			k := []int{0, 1, 2, 3, 5, 8}[g.r.Intn(6)]
 			pts, terms, ss, ps := m.terms(k)
+			ss0, ps0 := append([]*scalar.Scalar(nil), ss...), append([]*EdwardsPoint(nil), ps...)
 			if kind == "msm" {
 				o.MultiscalarMul(ss, ps)
 			} else {
 				o.MultiscalarMulVartime(ss, ps)
 			}
-			m.emit(kind, pts, terms, &o, nil)
+			m.emit(kind, pts, terms, &o, vev{"argsok": vsame(ss, ss0, ps, ps0)})
+		case "expseq":
+			// one long-lived expanded point through a SEQUENCE of calls: triple multiplications (half of their scalars
+			// yield a negative d_0) in between must leave the precomputed tables as they were
+			A := g.point()
+			xp := NewExpandedEdwardsPoint(A)
+			for step := 0; step < 3; step++ {
+				ra, _ := scalar.NewFromBytesModOrderWide(g.bytes(64))
+				rb, _ := scalar.NewFromBytesModOrderWide(g.bytes(64))
+				var tmp EdwardsPoint
+				tmp.ExpandedTripleScalarMulBasepointVartime(ra, xp, rb, g.point())
+				a, b := m.sbytes(), m.sbytes()
+				var o1 EdwardsPoint
+				o1.ExpandedDoubleScalarMulBasepointVartime(vscalar(a), xp, vscalar(b))
+				m.emit("expdsm", []*EdwardsPoint{A, B}, [][2]interface{}{{a, 0}, {b, 1}}, &o1, vev{"seqstep": step})
+				var o2 EdwardsPoint
+				o2.ExpandedMultiscalarMulVartime([]*scalar.Scalar{vscalar(a)}, []*ExpandedEdwardsPoint{xp}, []*scalar.Scalar{vscalar(b)}, []*EdwardsPoint{B})
+				m.emit("expmsm", []*EdwardsPoint{A, B}, [][2]interface{}{{a, 0}, {b, 1}}, &o2, vev{"nstatic": 1, "seqstep": step})
+			}
+			return
 		case "expmsm":
 			ks, kd := g.r.Intn(4), g.r.Intn(4)
 			pts, terms, ss, ps := m.terms(ks + kd)
@@ -417,7 +456,7 @@ func TestVerifRecC03(t *testing.T) {
 			m.emit(kind, pts, terms, &o, vev{"nstatic": ks})
 		}
 	}
-	kinds := []string{"mul", "mulbase", "mulbasegeneric", "newtable", "dsm", "expdsm", "msm", "msmvt", "expmsm"}
+	kinds := []string{"mul", "mulbase", "mulbasegeneric", "newtable", "dsm", "expdsm", "msm", "msmvt", "expmsm", "expseq"}
 	if n == 0 {
 		n = 36
 	}
@@ -448,9 +487,18 @@ func TestVerifRecC03(t *testing.T) {
 			continue
 		}
 		pts, terms, ss, ps := m.terms(sz)
+		// a few exactly-zero scalars in the middle of the list (never only at its end)
+		for _, at := range []int{1, sz / 3, sz / 2} {
+			if at < sz-1 {
+				zero := make([]byte, 32)
+				terms[at][0] = zero
+				ss[at] = vscalar(zero)
+			}
+		}
+		ss0, ps0 := append([]*scalar.Scalar(nil), ss...), append([]*EdwardsPoint(nil), ps...)
 		var o EdwardsPoint
 		o.MultiscalarMulVartime(ss, ps)
-		m.emit("msmvt", pts, terms, &o, vev{"size": sz})
+		m.emit("msmvt", pts, terms, &o, vev{"size": sz, "argsok": vsame(ss, ss0, ps, ps0)})
 	}
 	for _, sd := range [][2]int{{94, 95}, {95, 96}, {0, 191}, {191, 0}} {
 		if big_ == 0 && sd[0] != 95 {
